@@ -24,6 +24,7 @@ Judge(L) ==
      IF L.outcome # "OK" THEN "outcome_" \o L.outcome
      ELSE IF L.dev_milli > 1000 THEN "operator_is_not_the_weighted_sum_of_x_times_convolutions"
      ELSE "ok"
+  ELSE IF L.what = "finite" THEN (IF L.finite THEN "ok" ELSE "non_finite_operator")
   ELSE "unknown_line"
 VARIABLE l
 Init == l = 1
